@@ -182,6 +182,15 @@ pub fn run(ctx: &Ctx) -> Report {
             cases.push(mk_case(SocketAddr::new(*ip, 0x2112), t));
         }
     }
+    // special-purpose addresses (an implementation that canonicalises or classifies addresses shows here)
+    for txt in ["::", "::1", "::ffff:1.2.3.4", "::ffff:33.18.164.66", "::ffff:255.255.255.255", "::1.2.3.4", "64:ff9b::c000:201", "fe80::1", "ff02::1", "2002:c000:201::", "fc00::", "100::", "0.0.0.0", "255.255.255.255", "127.0.0.1", "224.0.0.1", "169.254.0.1"] {
+        let ip: IpAddr = txt.parse().unwrap();
+        for port in [0u16, 1, 0x2112, 0x8000, 0xFFFF] {
+            for t in tids {
+                cases.push(mk_case(SocketAddr::new(ip, port), t));
+            }
+        }
+    }
     // lane pairs with all 65536 value pairs: IPv4 all 6 pairs; IPv6 adjacent lanes and lanes 8 apart
     // (carries, sign extension and word-boundary slips need two lanes to show)
     for i in 0..4usize {
@@ -223,7 +232,7 @@ pub fn run(ctx: &Ctx) -> Report {
         .reduce(Acc::default, |a, b| a.merge(b));
     acc.nontrivial = n_cases;
     let mut bounds = json!({"ports": 65536, "lane_walk_backgrounds": 5, "cases": n_cases});
-    let mut rule = "all 65536 ports x 4 addresses x 3 tids; every byte lane of IPv4/IPv6 address and of the transaction id takes all 256 values against 5 backgrounds (zeros, ones, equal to the XOR key, complement, seeded); boundary tids; IPv4: all 6 lane pairs x all 65536 value pairs; IPv6: adjacent lanes and lanes 8 apart x 256 x (every 5th value + boundary set; all 256 in thorough); IPv6: all 96 single-bit-different tids".to_string();
+    let mut rule = "all 65536 ports x 4 addresses x 3 tids; every byte lane of IPv4/IPv6 address and of the transaction id takes all 256 values against 5 backgrounds (zeros, ones, equal to the XOR key, complement, seeded); boundary tids; 17 special-purpose addresses (unspecified, loopback, IPv4-mapped / -compatible, NAT64, link-local, multicast, 6to4, ...) x 5 ports x 4 tids; IPv4: all 6 lane pairs x all 65536 value pairs; IPv6: adjacent lanes and lanes 8 apart x 256 x (every 5th value + boundary set; all 256 in thorough); IPv6: all 96 single-bit-different tids".to_string();
     if ctx.tier == Tier::Thorough {
         // all 2^32 IPv4 addresses x 2 ports x 2 tids (fast path: address round trip + wire encoding)
         let fails = AtomicU64::new(0);
